@@ -86,7 +86,7 @@ def correspondence(ctx, model_ok, tmp):
         for step in range(rng.randint(12, 30)):
             r = rng.random()
             live = sorted(o_reg)
-            if r < 0.35 or not live:
+            if r < 0.32 or not live:
                 t, k, c = rng.randrange(2), rng.choice([1, 2, 3]), rng.randrange(3)
                 line = f"repo put {nid} {t} {k} {c}"
                 clash = any(info[i] == (t, k, c) for i in o_reg)
@@ -103,7 +103,7 @@ def correspondence(ctx, model_ok, tmp):
                 if (out == "ok") == clash:
                     viol(f"put of type {t} detector {k} into run {c} -> {out} although the slot is {'taken' if clash else 'free'}", f"put:{ops}",
                          {"kind": "history", "ops": ops + [line]})
-            elif r < 0.45:
+            elif r < 0.44:
                 ids = [i for i in rng.sample(live, min(len(live), 2)) if info[i][0] == 0]
                 if not ids:
                     continue
@@ -122,7 +122,7 @@ def correspondence(ctx, model_ok, tmp):
                     out = "err " + type(e).__name__
                 if (out == "ok") != okk:
                     viol(f"associate {ids} -> {out}, expected {'ok' if okk else 'conflict'}", f"assoc:{ops}", {"kind": "history", "ops": ops + [line]})
-            elif r < 0.5:
+            elif r < 0.49:
                 cands = [i for i in live if info[i][0] == 1 and i not in o_cal and not any(info[j][1] == info[i][1] for j in o_cal)]
                 if not cands:
                     continue
@@ -131,7 +131,7 @@ def correspondence(ctx, model_ok, tmp):
                 o_cal.add(i)
                 line = None  # (calibration membership is C04's model; here it only has to vanish with the dataset)
                 ops.append(f"certify {i}")
-            elif r < 0.62:
+            elif r < 0.58:
                 ids = rng.sample(live, min(len(live), rng.choice([1, 2])))
                 line = "repo unstore " + ",".join(map(str, ids))
                 b.pruneDatasets([refs[i] for i in ids], unstore=True, disassociate=False, purge=False)
@@ -140,7 +140,9 @@ def correspondence(ctx, model_ok, tmp):
             elif r < 0.68 and o_tag:
                 ids = rng.sample(sorted(o_tag), min(len(o_tag), 2))
                 line = "repo reg disassoc 3 " + ",".join(map(str, ids))
-                b.pruneDatasets([refs[i] for i in ids], disassociate=True, tags=[tag], unstore=False, purge=False)
+                # `tags` is documented as an iterable: hand over a list, a tuple or a single-pass generator
+                tags_arg = rng.choice([[tag], (tag,), (x for x in [tag]), iter([tag]), iter((tag,))])
+                b.pruneDatasets([refs[i] for i in ids], disassociate=True, tags=tags_arg, unstore=False, purge=False)
                 out = "ok"
                 o_tag.difference_update(ids)
             elif r < 0.82:
@@ -168,23 +170,41 @@ def correspondence(ctx, model_ok, tmp):
                          f"orphan:{ops}", {"kind": "history", "ops": ops + [line]})
             elif r < 0.93:
                 c = rng.randrange(3)
-                line = f"repo rmrun {c}"
-                # the run is a child of the chain: take it out first (documented requirement), then remove, then re-create it
-                kids = [x for x in reg.getCollectionChain(chain) if x != runs[c]]
-                reg.setCollectionChain(chain, kids)
-                try:
-                    b.removeRuns([runs[c]], unstore=True)
-                    out = "ok"
-                    gone = {i for i in o_reg if info[i][2] == c}
-                    for s_ in (o_reg, o_ds, o_disk, o_tag, o_cal):
-                        s_.difference_update(gone)
-                    interesting = interesting or bool(o_reg)
-                except Exception as e:
-                    out = "err INTERNAL:" + type(e).__name__
-                req.append(line), impl.append(out)
-                reg.registerRun(runs[c])
-                reg.setCollectionChain(chain, kids + [runs[c]])
-                line, out = f"repo reg regcoll {c} R", "True"
+                if rng.random() < 0.3:
+                    # a removal that must be refused as a whole: runs[c] is still a child of the chain, and another
+                    # run comes first in the same call; nothing may change, now or at a later trash emptying
+                    c0 = (c + 1) % 3
+                    uns = rng.random() < 0.7
+                    try:
+                        b.removeRuns([runs[c0], runs[c]], unstore=uns)
+                        refused = False
+                    except Exception:
+                        refused = True
+                    ops.append(f"rmrun-refused {c0},{c} unstore={uns}")
+                    ctx.count("rmrun-refused")
+                    if not refused:
+                        # not what the implementation does today; keep going on a fresh footing rather than guess
+                        ctx.broken.append("correspondence: removeRuns of a run that is still a child of a CHAINED collection was accepted")
+                        break
+                    line = None
+                else:
+                    line = f"repo rmrun {c}"
+                    # the run is a child of the chain: take it out first (documented requirement), then remove, then re-create it
+                    kids = [x for x in reg.getCollectionChain(chain) if x != runs[c]]
+                    reg.setCollectionChain(chain, kids)
+                    try:
+                        b.removeRuns([runs[c]], unstore=True)
+                        out = "ok"
+                        gone = {i for i in o_reg if info[i][2] == c}
+                        for s_ in (o_reg, o_ds, o_disk, o_tag, o_cal):
+                            s_.difference_update(gone)
+                        interesting = interesting or bool(o_reg)
+                    except Exception as e:
+                        out = "err INTERNAL:" + type(e).__name__
+                    req.append(line), impl.append(out)
+                    reg.registerRun(runs[c])
+                    reg.setCollectionChain(chain, kids + [runs[c]])
+                    line, out = f"repo reg regcoll {c} R", "True"
             else:
                 cands = sorted(o_disk)
                 if not cands:
@@ -196,6 +216,7 @@ def correspondence(ctx, model_ok, tmp):
             if line is not None:
                 ops.append(line[5:])
                 req.append(line), impl.append(out)
+                ctx.count(line.split()[1] if line.split()[1] != "reg" else line.split()[2])
             ctx.evaluations += 1
             # ---- probes: every dataset ever created
             allrefs = [refs[i] for i in sorted(refs)]
